@@ -168,6 +168,39 @@ def bad_value(txt: str, where: int) -> bool:
     return result((not cfg.fail_on_converter_warnings) and warned and isinstance(kept, str) and str_eq(kept, txt))
 
 
+_DBAD = [True, False, "abc", "", [1], {"z": 1}, 1.5]
+
+
+def dict_bad_value(k: int) -> bool:
+    """
+    pre: 0 <= k < len(_DBAD)
+    post: _
+    """
+    # doc "basic": the int field i receives a JSON value that is not an int
+    import copy
+    import sys
+
+    from harness.common import concretize
+
+    ck = concretize(k, len(_DBAD))
+    st = _setup()
+    data = copy.deepcopy(DictEncoder(context=st["ctx"]).encode(_OBJ))
+    data["i"] = _DBAD[ck]
+    cfg = _cfg()
+    ch = sys.modules.get("chmodels")
+    if ch is not None:
+        del ch.WARNED[:]
+    try:
+        with warnings.catch_warnings(record=True) as w:
+            warnings.simplefilter("always")
+            obj = DictDecoder(config=cfg, context=st["ctx"]).decode(data, _CLS)
+            warned = any(issubclass(x.category, ConverterWarning) for x in w) or (ch is not None and any(issubclass(c, ConverterWarning) for c in ch.WARNED))
+    except ParserError:
+        # lists / objects for a scalar field are structural errors (always ParserError); scalars fail only when configured to
+        return result(cfg.fail_on_converter_warnings or isinstance(_DBAD[ck], (list, dict)))
+    return result((not cfg.fail_on_converter_warnings) and warned and not isinstance(obj.i, bool) and not (isinstance(obj.i, int)))
+
+
 def dict_unknown(p: int, n: int) -> bool:
     """
     pre: 0 <= p < NP
@@ -191,7 +224,23 @@ def dict_unknown(p: int, n: int) -> bool:
     return result((not cfg.fail_on_unknown_properties) and deep_eq(obj, base))
 
 
+_KNOWN_POLY = known("C10-dict-unknown-key-in-polymorphic-object")
+# own level of objects that the decoder binds by key-set detection / best match (the listed known finding's signature)
+_POLY_LEVELS = {"holder": [("b",), ("bb", "*")], "wlderived": [("items", "*")], "family": [("base", "*"), ("derived", "*"), ("sibling", "*"), ("members", "*")], "unionmodels": [("item",), ("it", "*")]}
+
+
+def _is_poly(path):
+    for pat in _POLY_LEVELS.get(_DOC, []):
+        if len(pat) == len(path) and all(a == "*" or a == b for a, b in zip(pat, path)):
+            return True
+    return False
+
+
 def _dict_paths(d, prefix=()):
+    if prefix and prefix[-1] in ("attributes", "attrs"):
+        return []  # a key added to an attribute map is a new attribute, not an unknown property
+    if _KNOWN_POLY and _is_poly(prefix):
+        return [p for k, v in d.items() for p in _dict_paths(v, prefix + (k,))] if isinstance(d, dict) else []
     out = [prefix] if isinstance(d, dict) and (not prefix or _is_model_dict(d)) else []
     if isinstance(d, dict):
         for k, v in d.items():
@@ -281,6 +330,18 @@ def plan(tier):
             jobs.append(Job("inject_attribute", {"doc": doc, "handler": h, "fup": fup, "fua": fua, "fcw": fcw}, 240, 30))
     for c_i, (fup, fua, fcw) in enumerate(combos):
         jobs.append(Job("bad_value", {"doc": "basic", "handler": ("native", "lxml")[c_i % 2], "fup": fup, "fua": fua, "fcw": fcw}, 240, 30))
-        for doc in (("basic", "parenta", "holder") if quick else ("basic", "parenta", "holder", "lists", "wrapped")):
+        jobs.append(Job("dict_bad_value", {"doc": "basic", "fup": fup, "fua": fua, "fcw": fcw}, 240, 30, note="selector driven"))
+        for doc in (("basic", "parenta", "holder", "wlderived") if quick else ("basic", "parenta", "holder", "lists", "wrapped", "wlderived", "family")):
             jobs.append(Job("dict_unknown", {"doc": doc, "fup": fup, "fua": fua, "fcw": fcw}, 240, 30))
     return jobs
+
+
+def poly_unknown_witness():
+    """Known finding C10-dict-unknown-key-in-polymorphic-object through the public API."""
+    from harness.models import Base, Derived, Holder
+
+    data = {"b": {"x": 1, "y": "q", "zz_unknown": 0}, "bb": []}
+    try:
+        return DictDecoder(config=ParserConfig(fail_on_unknown_properties=False)).decode(data, Holder) == Holder(b=Derived(x=1, y="q"))
+    except Exception:  # noqa: BLE001
+        return False
